@@ -30,6 +30,8 @@ class Engine(Interp, ExprMixin, StmtMixin, CallMixin, MethodMixin):
         self.cur_fs = None
         self.lemmas_used = set()
         self.revealed = set()
+        self.comp_info = {}
+        self.iter_info = {}
         self.scoped = []
         self.pure_modules = {'builtins', 'operator', 're', 'os', 'posixpath', 'typing', 'itertools', 'functools', 'collections', 'enum', 'string'}
         self.effect_modules = {'mesonbuild.mlog'}
